@@ -15,7 +15,6 @@ Arguments N.pow : simpl never.
 Arguments N.div : simpl never.
 Arguments N.modulo : simpl never.
 
-Ltac Zify.zify_post_hook ::= Z.div_mod_to_equations.
 
 (** ** digit lists *)
 Definition val_lsb (l : list N) : N := fold_right (fun d acc => d + 10 * acc) 0 l.
@@ -143,10 +142,9 @@ Qed.
 Lemma is_ws_digit_char : forall d, d < 10 -> is_ws (digit_char d) = false.
 Proof.
   intros d H. pose proof (digit_char_range d H) as R. set (c := digit_char d) in *. unfold is_ws.
-  repeat match goal with
-  | |- context [?a <=? ?b] => let E := fresh in destruct (a <=? b) eqn:E; [apply N.leb_le in E | apply N.leb_gt in E]
-  | |- context [?a =? ?b] => let E := fresh in destruct (a =? b) eqn:E; [apply N.eqb_eq in E | apply N.eqb_neq in E]
-  end; try reflexivity; exfalso; lia.
+  rewrite !orb_false_iff.
+  repeat split; try (apply N.eqb_neq; lia);
+    apply andb_false_iff; first [left; apply N.leb_gt; lia | right; apply N.leb_gt; lia].
 Qed.
 
 (** ** [parse_digits] / [parse_u64] on a printed number *)
